@@ -10,4 +10,200 @@ import RV.Lemmas.TRBindSteps
 namespace RV.Props.TRBind
 open RV.Traffic RV.TRBind RV.Oracle.TRBind RV.Lemmas.TRBind
 
+
+/-! ## 4b. One reconcile of rollout `i` inside the closed loop -/
+
+/-- the entry of rollout `i` after its reconcile -/
+def landEntry (e : Entry) (r : RolloutSM.StepResult) : Entry :=
+  { e with w := if r.roGone then e.w else landWl r.w, gone := r.roGone }
+
+theorem step_ro (s s' : JS) (i : Nat) (f : TFault) (e : Entry) (he : s.ros[i]? = some e) (hg : e.gone = false)
+    (h : step s (.ro i f) = some s') :
+    ∃ r tr', roReconcile i e.bound (roWorld s e) s.tr f = .val r tr' ∧
+      s' = { tr := tr', net := r.w.net, mem := r.w.mem, ros := s.ros.set i (landEntry e r) } := by
+  simp only [step, he, hg, Bool.false_eq_true, if_false] at h
+  split at h
+  · cases h
+  · rename_i r tr' hr
+    cases h
+    exact ⟨r, tr', hr, rfl⟩
+
+theorem lt_of_get {α} (l : List α) (i : Nat) (x : α) (h : l[i]? = some x) : i < l.length := by
+  rcases Nat.lt_or_ge i l.length with h1 | h1
+  · exact h1
+  · rw [List.getElem?_eq_none h1] at h; cases h
+
+theorem get_set_self {α} (l : List α) (i : Nat) (x y : α) (h : l[i]? = some x) : (l.set i y)[i]? = some y := by
+  rw [List.getElem?_set_self (lt_of_get l i x h)]
+
+theorem get_set_ne {α} (l : List α) (i j : Nat) (y : α) (h : i ≠ j) : (l.set i y)[j]? = l[j]? :=
+  List.getElem?_set_ne h
+
+theorem addedOnlyWhenOpen_refl (i : Nat) (tr : Option TRO) : addedOnlyWhenOpen i tr tr = true := by
+  unfold addedOnlyWhenOpen; simp
+
+/-- what a reconcile of rollout `i` does to the TrafficRouting: it adds its own finalizer only to a live object that is
+    neither Finalizing nor Terminating, and touches nothing else (`othersKept`: nobody else's finalizer, not the own
+    finalizer of the TrafficRouting controller, no status, no spec; the object disappears only with the last finalizer) -/
+theorem ro_tr_effect (i : Nat) (b : Bool) (w : RolloutSM.World) (tr : Option TRO) (f : TFault) (r : RolloutSM.StepResult) (tr' : Option TRO)
+    (h : roReconcile i b w tr f = .val r tr') : addedOnlyWhenOpen i tr tr' = true ∧ othersKept i tr tr' = true := by
+  cases ro_cases i b w tr f r tr' h with
+  | pass _ ht _ => subst ht; exact ⟨addedOnlyWhenOpen_refl i _, othersKept_refl i _⟩
+  | initDone _ _ _ _ hh =>
+    obtain ⟨_, _, h3, h4⟩ := handle_spec i tr f
+    rw [hh] at h3 h4; exact ⟨h3, h4⟩
+  | initWait _ _ _ _ _ hh _ =>
+    obtain ⟨_, _, h3, h4⟩ := handle_spec i tr f
+    rw [hh] at h3 h4; exact ⟨h3, h4⟩
+  | initErr _ _ _ _ _ hh _ =>
+    obtain ⟨_, _, h3, h4⟩ := handle_spec i tr f
+    rw [hh] at h3 h4; exact ⟨h3, h4⟩
+  | finErr _ _ hh _ =>
+    obtain ⟨_, _, h3, h4⟩ := finalize_spec i tr f
+    rw [hh] at h3 h4; exact ⟨h3, h4⟩
+  | finOk _ _ hh _ =>
+    obtain ⟨_, _, h3, h4⟩ := finalize_spec i tr f
+    rw [hh] at h3 h4; exact ⟨h3, h4⟩
+
+open RV.RolloutSM RV.Props.Reconcile in
+theorem ro1_same (ro : Rollout) :
+    (handleFinalizer ro).1.phase = ro.phase ∧ (handleFinalizer ro).1.reason = ro.reason ∧ (handleFinalizer ro).1.term = ro.term ∧
+    (handleFinalizer ro).1.sub = ro.sub := by
+  rw [hf_frame ro]; exact ⟨rfl, rfl, rfl, rfl⟩
+
+theorem roWorld_ro (s : JS) (e : Entry) : (roWorld s e).ro = e.w.ro := rfl
+
+theorem wlSeen_landWl (w : RolloutSM.World) : wlSeen (landWl w) = wlSeen w := by
+  unfold wlSeen landWl
+  cases w.wl with
+  | none => rfl
+  | some x => simp [Bool.and_assoc]
+
+/-- after an error of the binding call the rollout's own clean-up has not moved -/
+theorem err_not_moved (s : JS) (e : Entry) (r : RolloutSM.StepResult)
+    (hw : r.w = { (roWorld s e) with ro := (RolloutSM.handleFinalizer (roWorld s e).ro).1 }) :
+    cleanupMoved e (landEntry e r) = false := by
+  obtain ⟨h1, h2, h3, h4⟩ := ro1_same (roWorld s e).ro
+  rw [roWorld_ro] at h1 h2 h3 h4
+  unfold cleanupMoved landEntry
+  cases hg : r.roGone with
+  | true => simp
+  | false =>
+    simp only [Bool.false_eq_true, if_false]
+    have e1 : wlSeen (landWl r.w) = wlSeen e.w := by
+      rw [wlSeen_landWl, hw]; rfl
+    have e2 : (landWl r.w).br = e.w.br := by rw [hw]; rfl
+    have e3 : (landWl r.w).ro = (RolloutSM.handleFinalizer e.w.ro).1 := by rw [hw]; rfl
+    rw [e1, e2, e3]
+    simp [finStepOf, h1, h2, h3, h4]
+
+
+theorem initializing_iff (ro : RolloutSM.Rollout) : initializing ro = true ↔ ro.phase = .progressing ∧ ro.reason = .initializing := by
+  unfold initializing; simp
+
+theorem landEntry_ro (e : Entry) (r : RolloutSM.StepResult) (h : r.roGone = false) : (landEntry e r).w.ro = r.w.ro := by
+  unfold landEntry; simp [h, landWl]
+
+theorem not_rolling_of_init (ro : RolloutSM.Rollout) (h : initializing ro = true) : rolling ro = false := by
+  rw [initializing_iff] at h
+  unfold rolling; simp [h.2]
+
+/-- a bound rollout that this reconcile leaves in InRolling / Paused was there before, or has its finalizer on the
+    TrafficRouting now -/
+theorem rolling_after (i : Nat) (w : RolloutSM.World) (tr : Option TRO) (f : TFault) (r : RolloutSM.StepResult) (tr' : Option TRO)
+    (h : roReconcile i true w tr f = .val r tr') (hr : rolling r.w.ro = true) :
+    (rolling w.ro = true ∧ tr' = tr) ∨ i ∈ holdersOf tr' := by
+  cases ro_cases i true w tr f r tr' h with
+  | pass h0 ht hc =>
+    rcases rolling_origin w r h0 hr with h1 | ⟨h1, h2⟩
+    · exact Or.inl ⟨h1, ht⟩
+    · rcases hc with hc | hc | ⟨_, hc⟩
+      · cases hc
+      · rw [h1] at hc; cases hc
+      · exact absurd h2 hc
+  | initDone _ _ _ _ hh =>
+    obtain ⟨h1, _, _, _⟩ := handle_spec i tr f
+    rw [hh] at h1
+    obtain ⟨h1a, h1b⟩ := h1 rfl
+    dsimp only at h1a
+    subst h1a
+    exact Or.inr h1b
+  | initWait _ _ r0 _ _ _ he =>
+    subst he
+    simp [rolling] at hr
+  | initErr hp _ r0 _ _ _ he =>
+    subst he
+    dsimp only at hr
+    rw [rolling_ro1] at hr
+    obtain ⟨p1, p2⟩ := position_init w hp
+    simp [rolling, p2] at hr
+  | finErr hp _ _ he =>
+    subst he
+    dsimp only at hr
+    rw [rolling_ro1, not_rolling_of_fin w hp] at hr
+    cases hr
+  | finOk hp _ _ h0 =>
+    rcases rolling_origin w r h0 hr with h1 | ⟨h1, _⟩
+    · rw [not_rolling_of_fin w hp] at h1; cases h1
+    · rw [hp] at h1; cases h1
+
+/-- **2. `rollout_waits_for_binding` (C03)** — for every joint state, every rollout `i`, every fault: a bound Rollout
+    leaves Initializing for InRolling only with its finalizer on the TrafficRouting; it adds that finalizer only to a
+    live TrafficRouting that is neither Finalizing nor Terminating (no resurrection of a clean-up in progress); and it
+    touches nothing else of the TrafficRouting, in particular nobody else's finalizer. -/
+theorem rollout_waits_for_binding (s s' : JS) (i : Nat) (f : TFault) (e : Entry) (he : s.ros[i]? = some e) (hg : e.gone = false)
+    (h : step s (.ro i f) = some s') :
+    ∃ e', s'.ros[i]? = some e' ∧ leavesInitHeld i e e' s'.tr = true ∧ addedOnlyWhenOpen i s.tr s'.tr = true ∧
+      othersKept i s.tr s'.tr = true := by
+  obtain ⟨r, tr', hr, hs'⟩ := step_ro s s' i f e he hg h
+  subst hs'
+  obtain ⟨a1, a2⟩ := ro_tr_effect _ _ _ _ _ _ _ hr
+  refine ⟨landEntry e r, get_set_self _ _ _ _ he, ?_, a1, a2⟩
+  unfold leavesInitHeld
+  cases hprem : (e.bound && initializing e.w.ro && !(landEntry e r).gone && rolling (landEntry e r).w.ro) with
+  | false => rfl
+  | true =>
+    simp only [Bool.and_eq_true, Bool.not_eq_true'] at hprem
+    obtain ⟨⟨⟨hb, hinit⟩, hng⟩, hroll⟩ := hprem
+    have hng' : r.roGone = false := hng
+    rw [landEntry_ro e r hng'] at hroll
+    rw [hb] at hr
+    rcases rolling_after i _ _ _ _ _ hr hroll with ⟨h1, _⟩ | h1
+    · rw [roWorld_ro, not_rolling_of_init _ hinit] at h1; cases h1
+    · simp [h1]
+
+/-- **3. `finalise_waits_for_restore_partial` (C05 / C10)** — for every joint state: the own clean-up of a bound Rollout
+    (in-progress annotation, BatchRelease, clean-up cursor, verdict) moves only in a reconcile after which its finalizer
+    is off the TrafficRouting — or the TrafficRouting is gone.  (`_partial`: the second half of the clause as briefed,
+    "and the TrafficRouting reports Healthy", is false on the unchanged code: `finalise_waits_for_restore_full_FALSE`.) -/
+theorem finalise_waits_for_restore_partial (s s' : JS) (i : Nat) (f : TFault) (e : Entry) (he : s.ros[i]? = some e) (hg : e.gone = false)
+    (h : step s (.ro i f) = some s') :
+    ∃ e', s'.ros[i]? = some e' ∧ finaliseFinalizerOff i (position (roWorld s e)) e e' s'.tr = true := by
+  obtain ⟨r, tr', hr, hs'⟩ := step_ro s s' i f e he hg h
+  subst hs'
+  refine ⟨landEntry e r, get_set_self _ _ _ _ he, ?_⟩
+  unfold finaliseFinalizerOff
+  cases hprem : (e.bound && position (roWorld s e) == .fin && cleanupMoved e (landEntry e r)) with
+  | false => rfl
+  | true =>
+    simp only [Bool.and_eq_true, beq_iff_eq] at hprem
+    obtain ⟨⟨hb, hpos⟩, hmoved⟩ := hprem
+    dsimp only
+    cases ro_cases _ _ _ _ _ _ _ hr with
+    | pass _ _ hc =>
+      rcases hc with hc | hc | ⟨hc, _⟩
+      · rw [hb] at hc; cases hc
+      · rw [hpos] at hc; cases hc
+      · rw [hpos] at hc; cases hc
+    | initDone hp _ _ _ _ => rw [hpos] at hp; cases hp
+    | initWait hp _ _ _ _ _ _ => rw [hpos] at hp; cases hp
+    | initErr hp _ _ _ _ _ _ => rw [hpos] at hp; cases hp
+    | finErr _ _ _ he' =>
+      rw [err_not_moved s e r (by rw [he'])] at hmoved; cases hmoved
+    | finOk _ _ hh _ =>
+      obtain ⟨h1, _, _, _⟩ := finalize_spec i s.tr f
+      rw [hh] at h1
+      have := h1 rfl
+      simp [this]
+
 end RV.Props.TRBind
